@@ -57,10 +57,19 @@ func body(t TaskSpec) string {
 	var l []string
 	c := func(i int) string {
 		s := fmt.Sprintf("probe --id=%s.c%d --yield=%d", t.Name, i, t.Yield)
-		if t.WLock != "" {
-			s += " --hold=" + t.WLock
-		} else if t.RLock != "" {
-			s += " --hold=r:" + t.RLock
+		var holds []string
+		for _, r := range strings.Split(t.WLock, ",") {
+			if r != "" {
+				holds = append(holds, r)
+			}
+		}
+		for _, r := range strings.Split(t.RLock, ",") {
+			if r != "" {
+				holds = append(holds, "r:"+r)
+			}
+		}
+		if len(holds) > 0 {
+			s += " --hold=" + strings.Join(holds, ",")
 		}
 		if (t.Fail == "return1" && i == 1) || (t.Fail == "return2" && i == 2) {
 			s += " --fail=return"
@@ -287,6 +296,9 @@ func judge(sp Spec, o *obs) func(x *explore.Exec) *explore.Verdict {
 		}
 		if (o.waitErr != nil) != anyFailed {
 			return v("manager-wait-result", "waiting on the task manager reports an error exactly when some task failed", "TasksManager.Wait returned %v, some task failed: %v (errors per task %v)", o.waitErr, anyFailed, o.taskErrs)
+		}
+		if w.ExclViolation != "" {
+			return v("lock-exclusion-violated", "a writer of a named resource excludes every other holder of it", "%s", w.ExclViolation)
 		}
 		// named resource locks around bodies (binds C15 to the runner)
 		for res, n := range w.MaxInside {
